@@ -335,3 +335,7 @@ impl<T: FontWrite> FontWrite for Option<T> {
         }
     }
 }
+
+#[cfg(googlefonts_fontations_verif)]
+#[path = "/verif/harness/incrate/write_hook.rs"]
+mod verif_harness;
